@@ -590,7 +590,7 @@ class NodeDeserializer:
 def bundle(
     filename: PurePath, members: Iterable[Tuple[str, Union[str, bytes]]]
 ) -> bytes:
-    if filename.suffixes[-2:] != [".tar", ".gz"] and filename.suffixes[-1] != ".tar":
+    if filename.suffixes[-2:] != [".tar", ".gz"] and filename.suffixes[-1:] != [".tar"]:
         raise ValueError(f"Unknown bundling format: {filename.as_posix()}")
 
     output_file = io.BytesIO()
